@@ -19,10 +19,11 @@ pub mod windows;
 #[cfg(target_os = "linux")]
 pub mod splice;
 
-// map v6 socket addr into v4 if possible
+// map v6 socket addr into v4 if it is an IPv4-mapped address (::ffff:a.b.c.d), as a dual stack socket reports
+// its IPv4 peers. Not to_ipv4(): that also turns ::1 into 0.0.0.1 and every ::a.b.c.d into a.b.c.d.
 pub fn try_map_v4_addr(addr: SocketAddr) -> SocketAddr {
     if let SocketAddr::V6(v6) = addr {
-        if let Some(v4a) = v6.ip().to_ipv4() {
+        if let Some(v4a) = v6.ip().to_ipv4_mapped() {
             SocketAddr::V4(SocketAddrV4::new(v4a, v6.port()))
         } else {
             addr
